@@ -57,7 +57,9 @@ Step(s, ev) ==
     \* ---- returns
     [] s.pc = "ret" /\ e = "return" /\ ev.a = s.status /\ ev.b = 0 -> [s EXCEPT !.pc = "done"]
     [] s.pc = "objlim" /\ e = "return" /\ ev.b = 1 -> [s EXCEPT !.pc = "done"]
-    [] s.pc = "next" /\ e = "return" /\ s.level = MaxMpf + 1 /\ ev.a = s.status /\ ev.b = 0 -> [s EXCEPT !.pc = "done"]   \* ladder exhausted
+    \* ladder exhausted: an OPTIMAL/INFEASIBLE that no exact test confirmed is reported as UNSOLVED
+    [] s.pc = "next" /\ e = "return" /\ s.level = MaxMpf + 1 /\ ev.b = 0
+         /\ ev.a = (IF s.status \in {OPT, INF} THEN UNSOLVED ELSE s.status) -> [s EXCEPT !.pc = "done", !.status = ev.a]
     [] OTHER -> Reject
 
 RECURSIVE Fold(_, _, _)
